@@ -289,7 +289,9 @@ def m_id(m, w, d):
 
 
 # Mm.w.d notations in the same and adjacent months (incl. December/January) with every week: the case analysis of the constructor
-M_FAMILY = sorted({m_id(m, w, d) for m in (1, 2, 3, 4, 12) for w in (1, 2, 3, 4, 5) for d in (0, 3, 6)})
+# week days 0, 1, 3 realise every difference 0..6 between two week days
+M_FAMILY = sorted({m_id(m, w, d) for m in (1, 2, 3, 4, 12) for w in (1, 2, 3, 4, 5) for d in (0, 1, 3)})
+M_MONTH_PAIRS = [(12, 12), (12, 1), (1, 1), (1, 2), (2, 2), (2, 3), (3, 3), (3, 4), (4, 4)]
 
 
 def j_id(n):
@@ -318,18 +320,26 @@ def c11_pairs(rng, quick):
         jdays = [lo, lo + 6, lo + 7, lo + 13, lo + 14, lo + 20, lo + 21, hi - 7, hi - 6, hi, hi + 1, lo - 1]
         for jd in jdays:
             if 1 <= jd <= 365:
-                for w in (1, 2, 4, 5):
-                    for d in ((0, 6) if quick else (0, 3, 6)):
+                for w in (1, 2, 3, 4, 5):
+                    for d in ((0, 3) if quick else (0, 1, 3)):
                         both(j_id(jd), m_id(m, w, d))
                         both(z_id(jd - 1), m_id(m, w, d))
                         if m < 12 and jd >= hi - 7:
                             both(j_id(jd), m_id(m + 1, 1, d))
     for (a, b) in [(59, 60), (60, 61), (58, 59)]:
         both(j_id(a), j_id(b)); both(j_id(a), z_id(b)); both(z_id(a), z_id(b)); both(z_id(a - 1), j_id(b)); both(j_id(a), z_id(a)); both(j_id(b), z_id(b - 1))
-    fam = M_FAMILY if not quick else rng.sample(M_FAMILY, 40)
-    for a in fam:
-        for b in fam:
-            pairs.add((a, b))                                                    # same / adjacent months, Dec/Jan
+    # Mm.w.d against Mm'.w'.d' in the same or in adjacent months (the only M/M pairs whose order can flip), both orders
+    mm = []
+    for (m1, m2) in M_MONTH_PAIRS:
+        for w1 in range(1, 6):
+            for w2 in range(1, 6):
+                for d1 in (0, 1, 3):
+                    for d2 in (0, 1, 3):
+                        mm.append((m_id(m1, w1, d1), m_id(m2, w2, d2)))
+                        mm.append((m_id(m2, w2, d2), m_id(m1, w1, d1)))
+    mm = sorted(set(mm))
+    for p in (mm if not quick else rng.sample(mm, len(mm) // 2)):
+        pairs.add(p)
     for _ in range(300 if quick else 3000):
         pairs.add((rng.choice(ALL_DAY_IDS), rng.choice(ALL_DAY_IDS)))
     return pairs
@@ -357,11 +367,11 @@ def check_C04(tier, seed):
     binary = need_binary(res)
     rng = random.Random(seed * 7919 + 4)
     q = tier == "quick"
-    days = sorted(set(rng.sample(STRUCT_DAY_IDS, 6 if q else 20) + rng.sample(ALL_DAY_IDS, 3 if q else 16)))
-    years = sorted(set(rng.sample([0, 3, 4, 99, 100, 399], 2 if q else 6) + rng.sample(range(400), 2 if q else 30)))
+    days = sorted(set(rng.sample(STRUCT_DAY_IDS, 6 if q else 11) + rng.sample(ALL_DAY_IDS, 3 if q else 7)))
+    years = sorted(set(rng.sample([0, 3, 4, 99, 100, 399], 2 if q else 6) + rng.sample(range(400), 2 if q else 8)))
     raw = os.path.join(C.OUT, "C04-vectors-raw.ndjson")
-    consts = dict(DayIds=tla_set(days), TimeIdx=tla_set(rng.sample(range(1, 11), 3 if q else 6)), OffIdx=tla_set(rng.sample(range(1, 8), 3 if q else 5)),
-                  Years=tla_set(years), EmitVec="TRUE", Cycle=rng.choice([4, 5, 5, 6, -1]))
+    consts = dict(DayIds=tla_set(days), TimeIdx=tla_set(rng.sample(range(1, 11), 3 if q else 4)), OffIdx=tla_set(rng.sample(range(1, 8), 3 if q else 4)),
+                  Years=tla_set(years), EmitVec="TRUE", Cycle=rng.choice([4, 5, 5, 6, "<- CycleNeg"]))
     res.add_mc(run_mc("MC_Rule", consts, workers=C.NCPU, vec_out=raw, timeout=6000, xmx="12g"))
     vec = os.path.join(C.OUT, "C04-zonevec.ndjson")
     group_by_zone(raw, vec); os.remove(raw)
